@@ -1434,3 +1434,21 @@ Proof.
   intros H. destruct (intersects a b) eqn:E; [|reflexivity]. apply intersects_nonempty in E.
   destruct E as [E1 E2]. destruct H as [H|H]; congruence.
 Qed.
+
+(* ================================================================ the final panic is unreachable *)
+Lemma ix_flat_o_no_panic g1 g2 :
+  (forall c gs, g1 <> GColl c gs) -> (forall c gs, g2 <> GColl c gs) -> ix_flat_o g1 g2 <> OPanic.
+Proof.
+  intros G1 G2.
+  destruct g1 as [p|l|y|c mp|c ls|c ys|c gs]; try (exfalso; eapply G1; reflexivity);
+  destruct g2 as [p'|l'|y'|c' mp'|c' ls'|c' ys'|c' gs']; try (exfalso; eapply G2; reflexivity);
+  unfold ix_flat_o; cbn [rank Nat.ltb Nat.leb ix_switch]; discriminate.
+Qed.
+
+Lemma intersects_never_panics a b : intersects_panics a b = false.
+Proof.
+  unfold intersects_panics. destruct (existsb _ (leaves a)) eqn:E; [|reflexivity]. exfalso.
+  apply existsb_exists in E. destruct E as [la [Hla E]]. apply existsb_exists in E. destruct E as [lb [Hlb E]].
+  pose proof (ix_flat_o_no_panic la lb (leaves_not_coll a la Hla) (leaves_not_coll b lb Hlb)) as N.
+  destruct (ix_flat_o la lb); [discriminate | congruence].
+Qed.
